@@ -133,9 +133,80 @@ func dischargeFunc(sv *Solver, fr *FuncResult, par int) map[string]*oblStatus {
 			mu.Unlock()
 		}()
 	}
+	// batches: all obligations of one return point on one path, tried as a single query first
+	batchDone := map[*Obligation]*SolveResult{}
+	{
+		groups := map[string][]*Obligation{}
+		var order []string
+		for _, o := range fr.Obls {
+			if o.Reach || o.Batch == "" {
+				continue
+			}
+			if fr.Contract != nil {
+				n := o.Name()
+				if _, skip := fr.Contract.Unclaimed[n[strings.Index(n, "/")+1:]]; skip {
+					continue
+				}
+			}
+			if _, ok := groups[o.Batch]; !ok {
+				order = append(order, o.Batch)
+			}
+			groups[o.Batch] = append(groups[o.Batch], o)
+		}
+		var bmu sync.Mutex
+		var bwg sync.WaitGroup
+		for _, b := range order {
+			g := groups[b]
+			if len(g) < 2 {
+				continue
+			}
+			bwg.Add(1)
+			sem <- struct{}{}
+			go func() {
+				defer bwg.Done()
+				defer func() { <-sem }()
+				var sb strings.Builder
+				sb.WriteString(g[0].BatchPrefix)
+				var negs []string
+				for _, o := range g {
+					for _, d := range o.NegDecls {
+						sb.WriteString(d)
+						sb.WriteByte('\n')
+					}
+					negs = append(negs, o.NegTerm)
+				}
+				sb.WriteString("(assert (or " + strings.Join(negs, " ") + "))\n")
+				r := sv.solveQuick("batch:"+g[0].Func, pre+sb.String())
+				if r != nil && r.Answer == "unsat" {
+					share := *r
+					share.Seconds = r.Seconds / float64(len(g))
+					bmu.Lock()
+					for _, o := range g {
+						batchDone[o] = &share
+					}
+					bmu.Unlock()
+				}
+			}()
+		}
+		bwg.Wait()
+	}
 	for _, o := range fr.Obls {
 		o := o
 		if o.Reach {
+			continue
+		}
+		if r, ok := batchDone[o]; ok {
+			mu.Lock()
+			st := stats[o.Name()]
+			if st == nil {
+				st = &oblStatus{Name: o.Name(), Solver: map[string]int{}, Goal: o.Goal, Pos: o.Pos}
+				stats[o.Name()] = st
+			}
+			st.Instances++
+			st.Unsat++
+			st.Seconds += r.Seconds
+			st.Solver[r.Solver]++
+			mu.Unlock()
 			continue
 		}
 		if fr.Contract != nil {
